@@ -43,7 +43,7 @@ RulePool == AttrPool \o <<LS(t_win), LS(t_lin), RC("contains_field", fB), RC("co
 IC(t, all, s) == [t |-> t, all |-> all, s |-> s, k |-> <<>>, v |-> <<>>, op |-> "eq", num |-> FALSE, n |-> 0]
 ItemPool == <<IC("match_string", FALSE, t_foo), IC("match_string", TRUE, t_foo), IC("match_value", FALSE, t_bar),
               IC("match_value", TRUE, t_zz), IC("contains_wildcard", FALSE, <<>>), IC("contains_wildcard", TRUE, <<>>),
-              IC("is_null", FALSE, <<>>), IC("is_null", TRUE, <<>>), IC("applied", FALSE, t_ren), IC("applied", FALSE, <<112,114,101>>), IC("applied", FALSE, <<111,110,108,121,49>>),
+              IC("is_null", FALSE, <<>>), IC("is_null", TRUE, <<>>), IC("applied", FALSE, t_ren), IC("applied", FALSE, <<112,114,101>>), IC("applied", FALSE, <<111,110,108,121,49>>), IC("applied", FALSE, <<104,112,114,101>>),
               [IC("state", FALSE, <<>>) EXCEPT !.k = t_k, !.v = t_v], [IC("state", FALSE, <<>>) EXCEPT !.k = t_k, !.v = t_w],
               [IC("state", FALSE, <<>>) EXCEPT !.k = <<122>>, !.v = <<>>],
               [IC("state", FALSE, <<>>) EXCEPT !.k = <<110>>, !.op = "gt", !.num = TRUE, !.n = 4],
